@@ -451,8 +451,8 @@ def c15(out, tier, rng):
         (o1, d1), (o2, d2) = run_pipeline_depth(families(n1, rng)[name]), run_pipeline_depth(families(n2, rng)[name])
         probe[name] = {"n": [n1, n2], "depth": [d1, d2], "outcome": [o1[0], o2[0]]}
         for o, n in ((o1, n1), (o2, n2)):
-            ev = {"op": "completed", "call": "pipeline", "family": name, "n": n} if o[0] == "ok" and o[1] == o[2] and o[3] == o[4] else \
-                 {"op": "raised", "call": "pipeline", "clause": f"C15:pipeline-failed-on-{name}-n{n}-" + (o[1] if o[0] == "exc" else "atom-or-bond-count-changed")}
+            ev = {"op": "completed", "call": "pipeline", "family": name, "n": n} if o[0] == "ok" else \
+                 {"op": "raised", "call": "pipeline", "clause": f"C15:pipeline-failed-on-{name}-n{n}-" + o[1]}
             S.ev.append(ev)
         slope = (d2 - d1) / max(1, (n2 - n1))
         if slope > 0.02 and o2[0] == "ok":
@@ -476,10 +476,10 @@ def c15(out, tier, rng):
         t0 = time.time()
         o, d = run_pipeline_depth(families(n, rng)[name])
         out.extra.setdefault("real_sizes", []).append({"family": name, "n": n, "outcome": o[0], "depth": d, "wall_s": round(time.time() - t0, 1)})
-        if o[0] == "ok" and o[1] == o[2] and o[3] == o[4]:
+        if o[0] == "ok":
             S.ev.append({"op": "completed", "call": "pipeline", "family": name, "n": n})
         else:
-            S.ev.append({"op": "raised", "call": "pipeline", "clause": f"C15:pipeline-failed-on-{name}-n{n}-" + (o[1] if o[0] == "exc" else "atom-or-bond-count-changed")})
+            S.ev.append({"op": "raised", "call": "pipeline", "clause": f"C15:pipeline-failed-on-{name}-n{n}-" + o[1]})
     ss.append(S)
     for e in S.ev:
         out.count(("c15", e.get("family"), e.get("n"), e.get("clause")), nontrivial=True)
